@@ -112,6 +112,7 @@ type (
 		chain             Ledger
 		bQueue            *bqueue.Queue[*block.Block]
 		bSyncQueue        *bqueue.Queue[*block.Block]
+		bSyncQueueRun     atomic.Bool
 		syncHFetcherQueue *bqueue.Queue[*block.Header]
 		syncBFetcherQueue *bqueue.Queue[*block.Block]
 		bFetcherQueue     *bqueue.Queue[*block.Block]
@@ -371,11 +372,6 @@ func (s *Server) Start() {
 	go s.relayBlocksLoop()
 	go s.bQueue.Run()
 	go s.bFetcherQueue.Run()
-	if !s.config.NeoFSStateSyncExtensions {
-		// Blocks of the state synchronisation come from peers then, and nothing
-		// else runs this queue (stateSyncCallBack does it for NeoFS-based sync).
-		go s.bSyncQueue.Run()
-	}
 	if s.NeoFSBlockFetcherCfg.Enabled && !s.config.NeoFSStateSyncExtensions && !s.config.P2PStateExchangeExtensions {
 		if err := s.blockFetcher.Start(); err != nil {
 			s.log.Error("skipping NeoFS BlockFetcher", zap.Error(err))
@@ -926,6 +922,12 @@ func (s *Server) handleBlockCmd(p Peer, block *block.Block) error {
 			// Headers or MPT data are not in sync yet, the module
 			// can't accept blocks (and doesn't know its height).
 			return nil
+		}
+		// Nothing else runs this queue for P2P-based state synchronisation
+		// (stateSyncCallBack does it for the NeoFS-based one). It asks the
+		// module for its height, which is known since this stage only.
+		if s.bSyncQueueRun.CompareAndSwap(false, true) {
+			go s.bSyncQueue.Run()
 		}
 		return s.bSyncQueue.Put(block)
 	}
